@@ -52,6 +52,8 @@ ASSUMPTIONS = [
     "removing a name the block reads must give NameError under strict_undefined even if the reading statement is not "
     "reached (docs: 'any non-present variables raise an immediate NameError')",
     "classes, decorators, annotations, global, await/yield, match, Ellipsis, inf/nan are not generated",
+    "expressions whose f-strings reuse the enclosing quote character inside a replacement field (Python 3.12-only syntax) "
+    "are checked for re-emission but not placed in templates: finding the end of ${...} around them is the lexer's concern",
     "test_ast.py::test_locate_identifiers_9 pins that a comprehension variable at the top level of a block counts as "
     "assigned by the block (Python 2 semantics): a block that also reads a free variable of that name is not generated; "
     "inside functions nothing is pinned and CPython's scoping is demanded",
@@ -277,10 +279,35 @@ POSITIONS = ["def-default", "def-kwonly-default", "nested-def-default", "nested-
 MODULE_ENV = {"def-default", "def-kwonly-default", "block-arg", "page-arg"}
 
 
+def reuses_quote_inside_fstring(src):
+    """True if an f-string of src contains, in a replacement field, a literal delimited by the quote character of an
+    enclosing f-string (legal since Python 3.12 only, printed that way by ast.unparse when it runs out of quote kinds)."""
+    import io
+    import tokenize
+
+    if "f'" not in src and 'f"' not in src:
+        return False
+    stack = []
+    for tok in tokenize.generate_tokens(io.StringIO(src + "\n").readline):
+        name = tokenize.tok_name[tok.type]
+        if name in ("FSTRING_START", "STRING"):
+            q = tok.string.lstrip("rRbBuUfF")[:1]
+            if q in stack:
+                return True
+            if name == "FSTRING_START":
+                stack.append(q)
+        elif name == "FSTRING_END":
+            stack.pop()
+    return False
+
+
 def template_for(position, src, names):
     """-> (template text, 'module' | 'context')"""
     if "$" in src or "%>" in src or "</%" in src:
         raise Unsupported("characters with a template-level meaning")
+    if reuses_quote_inside_fstring(src):
+        # delimiting ${...} / attribute values around such text is the lexer's business (C01), not re-emission
+        raise Unsupported("Python 3.12-only quote reuse inside an f-string")
     if position == "def-default":
         return _module_env_block(names) + "<%%def name=%s>${rec_(a)}</%%def>${f()}" % _quote_attr("f(a=%s)" % src)
     if position == "def-kwonly-default":
@@ -693,6 +720,9 @@ def shard_block(task):
 
     def check(c):
         _hang_guard()
+        if reuses_quote_inside_fstring(c.src):
+            ev.rejected += 1  # finding the end of <% %> around Python 3.12-only quote reuse is the lexer's concern
+            return
         feats, kinds, in_fn = block_labels(c.src)
         nt = bool(feats & PARAM_FEATS) or bool(in_fn)
         labels = ["s:" + k for k in sorted(kinds) if k in STMT_KINDS] + ["par:" + f for f in sorted(feats & PARAM_FEATS)] + \
